@@ -66,7 +66,10 @@ type c17ChartSpec struct {
 	Version     string   `json:"version"`
 	Description string   `json:"description,omitempty"`
 	Keywords    []string `json:"keywords,omitempty"`
-	Body        string   `json:"body"`
+	// Notes, when set, becomes the annotation "notes" (annotation values keep their line breaks in the signed text,
+	// unlike the description, which is flattened)
+	Notes string `json:"notes,omitempty"`
+	Body  string `json:"body"`
 	BulkKB      int      `json:"bulk_kb,omitempty"` // extra incompressible file so that the archive exceeds common buffer sizes
 }
 
@@ -185,7 +188,7 @@ func (s c17ChartSpec) build() *chart.Chart {
 
 func (s c17ChartSpec) buildSmall() *chart.Chart {
 	return &chart.Chart{
-		Metadata: &chart.Metadata{APIVersion: "v2", Name: s.Name, Version: s.Version, Description: s.Description, Keywords: s.Keywords},
+		Metadata: &chart.Metadata{APIVersion: "v2", Name: s.Name, Version: s.Version, Description: s.Description, Keywords: s.Keywords, Annotations: c17Annotations(s.Notes)},
 		Templates: []*chart.File{
 			{Name: "templates/cm.yaml", Data: []byte("apiVersion: v1\nkind: ConfigMap\nmetadata:\n  name: " + s.Name + "\ndata:\n  k: " + s.Body + "\n")},
 		},
@@ -599,6 +602,16 @@ var c17Names = []string{"demo", "app-x", "a"}
 var c17Versions = []string{"0.1.0", "1.2.3", "2.0.0-rc.1+build.5", "10.20.30"}
 var c17Descriptions = []string{"", "plain text", "- starts with a dash", "line one\nline two", "trailing blanks  \nnext line", "x\n...\ny", "-----BEGIN PGP SIGNATURE-----", "tab\there"}
 
+// c17Annotations turns the notes text into the chart's annotations.
+func c17Annotations(notes string) map[string]string {
+	if notes == "" {
+		return nil
+	}
+	return map[string]string{"notes": notes}
+}
+
+var c17Notes = []string{"", "", "one line", "line one\nline two", "Options:\n...\n(more)", "ends with\n...", "Title\n---\nBody", "- a\n- b", "x\n ...\ny", "files:\n  demo-0.1.0.tgz: sha256:0000", "-----BEGIN PGP SIGNATURE-----\nabc"}
+
 // c17Uniform draws an index in [0,n) without rapid's strong bias towards small values (positions in a file and the
 // mutation class should be spread evenly): a 64-bit draw is mixed (splitmix64 finalizer) before reduction.
 func c17Uniform(t *rapid.T, label string, n int) int {
@@ -623,6 +636,7 @@ func c17GenChart(t *rapid.T, label string) c17ChartSpec {
 	if rapid.Bool().Draw(t, label+"Kw") {
 		s.Keywords = []string{"one", "two"}
 	}
+	s.Notes = rapid.SampledFrom(c17Notes).Draw(t, label+"Notes")
 	return s
 }
 
@@ -697,7 +711,7 @@ var c17Mutations = []string{
 	"none", "none", "none", "none",
 	"archive-tamper", "archive-tamper", "archive-substitute",
 	"attack-patch-digest", "attack-unsigned-prefix", "attack-unsigned-suffix", "attack-second-block", "attack-first-block",
-	"prov-flip-header", "prov-flip-body", "prov-flip-body", "prov-flip-armor", "prov-flip-armor", "prov-truncate", "prov-missing",
+	"prov-flip-header", "prov-flip-body", "prov-flip-body", "prov-flip-armor", "prov-flip-armor", "prov-truncate", "prov-empty", "prov-missing",
 	"prov-digest-digit", "prov-file-name", "prov-metadata-edit", "prov-insert-line",
 	"prov-trailing-blanks", "prov-crlf", "prov-armor-comment", "prov-hash-header", "prov-unsigned-prefix", "prov-unsigned-suffix", "prov-doubled",
 	"rename", "rename",
@@ -830,6 +844,9 @@ func c17Generate(t *rapid.T, env *c17Env) (g c17Gen, cut bool) {
 	case "prov-truncate":
 		n := c17Uniform(t, "provLen", len(prov))
 		cs.Prov, param = append([]byte{}, prov[:n]...), fmt.Sprintf("@%d", n)
+	case "prov-empty":
+		// the provenance file exists (the server answers 200) but holds nothing
+		cs.Prov, param = []byte{}, "@0"
 	case "prov-missing":
 		cs.Prov, cs.NoProv = nil, true
 	case "prov-digest-digit":
